@@ -340,6 +340,16 @@ func checkC01(tier string) int {
 			defer res.R.Close()
 		}
 		if res.Err != nil {
+			if ae, ok := res.Err.(*hist.ApplyError); ok && ae.Block != nil {
+				// Tendermint refused the leader's block results: if it accepted those of another node fed the same
+				// block, the nodes did not return the same validator updates
+				for k := 1; k < len(ae.Block.Resp); k++ {
+					if rk := ae.Block.Resp[k]; rk != nil && rk.ApplyErr == "" && rk.Err == "" {
+						r.Violate(verdict.Violation{Signature: "C01/tendermint-refused-on-some-nodes-only/" + classifyApplyErr(ae.Msg), What: fmt.Sprintf("history seed %d block %d: Tendermint refused the block results of %s (%s) and accepted those of %s", hseed, ae.Block.H, res.R.Reps[0].Name, ae.Msg, res.R.Reps[k].Name), Witness: map[string]interface{}{"seed": hseed, "height": ae.Block.H, "recipes": res.R.Recipes()}})
+						return
+					}
+				}
+			}
 			reportRunErr(r, "C01", hseed, res)
 			return
 		}
